@@ -181,7 +181,7 @@ def cache_rule(ctx, col):
     pi = repo.get_def(f"{POP}.Population.__init__")
     subs = [n for n in own_nodes(pi) if isinstance(n, ast.Subscript) and norm_src(n.value) == "swcs"]
     ok = all(isinstance(s.slice, ast.Constant) and s.slice.value == 0 for s in subs)
-    col.check(ok, "R-WHOCALLS", pi.qualname, pi.loc(), "construction looks at most at element 0 of its argument (the documented probe)",
+    col.shape(ok, "R-WHOCALLS", pi.qualname, pi.loc(), "construction looks at most at element 0 of its argument (the documented probe)",
               f"{len(subs)} subscript(s)", "construction indexes its argument beyond element 0: trees are loaded eagerly", stmt="probe")
     loads = [n for n in own_nodes(pi) if isinstance(n, ast.Call) and isinstance(n.func, ast.Attribute) and n.func.attr == "load"]
     ok = True
@@ -194,12 +194,12 @@ def cache_rule(ctx, col):
         ok = ok and any(isinstance(a, ast.If) and norm_src(a.test) == "not lazy_loading" for a in anc)
     loops = [n for n in own_nodes(pi) if isinstance(n, (ast.For, ast.comprehension)) and "swcs" in names_in(n.iter)
              and not (isinstance(n.iter, ast.Call) and norm_src(n.iter) == "range(len(swcs))")]
-    col.check(ok and not loops, "R-WHOCALLS", pi.qualname, pi.loc(), "eager loading happens only in the `not lazy_loading` arm; the argument is never iterated",
+    col.shape(ok and not loops, "R-WHOCALLS", pi.qualname, pi.loc(), "eager loading happens only in the `not lazy_loading` arm; the argument is never iterated",
               "", "construction loads or iterates the trees outside the explicit eager arm", stmt="eager-arm")
     fs = repo.get_def(f"{POP}.Population.from_swc")
     rets = [n for n in own_nodes(fs) if isinstance(n, ast.Return)]
     ok = len(rets) == 1 and norm_src(rets[0].value) == "cls(LazyLoadingTrees(swcs, **kwargs), root=root)"
-    col.check(ok, "R-WHOCALLS", fs.qualname, fs.loc(), "a directory population is a lazily loading one over the files found",
+    col.shape(ok, "R-WHOCALLS", fs.qualname, fs.loc(), "a directory population is a lazily loading one over the files found",
               "", "from_swc does not wrap the file list in LazyLoadingTrees", stmt="from_swc")
 
 
@@ -299,14 +299,14 @@ def run(ctx, col, tier):
              "passes a generator / map / zip / filter object (otherwise reported as latent)", floor=8)
     col.rule("R-CACHE", "load-once typestate of the per-file slot: single writer, guarded by "
              "`slot is None` with the same key, filled from the same-numbered file; indexing goes "
-             "normalise -> load -> read; construction reads nothing", floor=6)
+             "normalise -> load -> read; construction reads nothing", floor=6, shape=True)
     col.rule("R-WHOCALLS", "only the loader calls the file readers in this module; the loader is "
              "reached only from indexing and from the explicit eager arm; construction probes at most "
              "element 0", floor=5)
     col.rule("R-CHAIN", "chain indexing: bisect-right decision table over cumsum[mid] ? idx, member "
-             "lo-1 at offset idx - cumsum[lo-1], prefix sums from 0 in member order", floor=9, exhaustive=True)
+             "lo-1 at offset idx - cumsum[lo-1], prefix sums from 0 in member order", floor=9, exhaustive=True, shape=True)
     col.rule("R-ROWS", "multi-directory rows share one list of common relative paths; rows and map "
-             "preserve order (no unordered executor API)", floor=7)
+             "preserve order (no unordered executor API)", floor=7, shape=True)
     col.not_decided += ["directory walking (os.walk order)", "what process pools do with exceptions"]
     col.assumptions += ["Executor.map and tqdm's process_map return results in input order (documented)"]
     col.guard(iter_rule, ctx, col)
